@@ -237,7 +237,8 @@ def rule_peer_values(ctx):
     inv = [n for n in gd.nodes if n.kind == "stmt" and "invMod(s, self.q)" in norm(n.ast)]
     ctx.require(len(inv) == 1, "C10.PEER-VALUES: DSA invMod not found")
     Q = 7
-    dom = {"r": [-1, 0, 1, Q - 1, Q, Q + 1], "s": [-1, 0, 1, Q - 1, Q, Q + 1], "self.q": [Q]}
+    dom = {"r": [-1, 0, 1, Q - 1, Q, Q + 1], "s": [-1, 0, 1, Q - 1, Q, Q + 1], "self.q": [Q],
+           "self.p": [29], "self.g": [2], "self.y": [3]}
     rng = [t_ for t_ in gd.nodes if t_.kind == "test" and {"r", "s"} <= {x.id for x in ast.walk(t_.expr) if isinstance(x, ast.Name)}]
     good = []
     for t_ in rng:
